@@ -95,7 +95,9 @@ ENGINES.update({
         "doc": "MC_Clocks.tla: every pair of clocks of a bounded universe as one TLC state; declarative laws checked on the spec, every case printed as a test vector evaluated on the real VClock/Dot",
         "configs": {"quick": [{"cfg": "clocks_q.cfg", "module": "MC_Clocks.tla", "vectors": True,
                                "invariants": ["OrderOK", "LatticeOK", "ForgetOK", "DotOK"]}],
-                    "thorough": [{"cfg": "clocks_t.cfg", "module": "MC_Clocks.tla", "vectors": True,
+                    "thorough": [{"cfg": "clocks_q.cfg", "module": "MC_Clocks.tla", "vectors": True,
+                                  "invariants": ["OrderOK", "LatticeOK", "ForgetOK", "DotOK"]},
+                                 {"cfg": "clocks_t.cfg", "module": "MC_Clocks.tla", "vectors": True,
                                   "invariants": ["OrderOK", "LatticeOK", "ForgetOK", "DotOK"]}]},
         "traces": {"quick": [], "thorough": []},
     },
@@ -187,3 +189,39 @@ for _e, _d in (("map_or", "or"), ("map_mv", "mv"), ("map_map_mv", "map_mv"), ("m
                      tr("fifo4", "trace_map_%s.cfg" % _d, "Trace_Map.tla", "--n", 4, "--m", 2, "--k", 3, "--histories", 100, "--steps", 60, "--maxops", 12, "--regime", "fifo", "--merge")],
     }
     ENGINES[_e]["trace_props"] = {"keys": ["C05", "C01", "C03"], "topctx": ["C07", "C08"], "contents": ["C05", "C01", "C03", "C08"], "op": ["C07"]}
+
+
+# ---- additional quick configs: shapes the first exhaustive configs could not reach ----------------
+def orcfg(cfg, flags=("--persist", "--laws"), inv=None, **kw):
+    d = {"cfg": cfg, "module": "MC_Orswot.tla", "flags": list(flags), "invariants": inv or INV_ORSWOT}
+    d.update(kw)
+    return d
+
+
+ENGINES["orswot"]["configs"]["quick"] += [
+    orcfg("orswot_q3all.cfg"),                       # add_all + rm: several pending removes with the SAME context
+    orcfg("orswot_s_samectx.cfg"),                   # scenario: rm_all-context removes of different members overtake the adds
+    orcfg("orswot_s_collapse.cfg", flags=("--persist",), inv=["TypeOK", "RefinesA", "Converge", "DupNoop", "ValidateOpOK", "CtxOK", "FreshDot"]),  # regression of fix 4c1b5ee
+]
+ENGINES["map_or"]["configs"]["quick"] += [mapcfg("map_or_s_samectx.cfg", 1, 2), mapcfg("map_or_s_uru.cfg", 2, 1)]
+ENGINES["map_mv"]["configs"]["quick"] += [mapcfg("map_mv_s_samectx.cfg", 1, 2)]
+ENGINES["map_map_mv"]["configs"]["quick"] += [mapcfg("map_map_mv_s_samectx.cfg", 1, 2)]
+
+# ---- thorough tier = quick configs + larger exhaustive models ----------------------------------
+def _t(engine, extra):
+    ENGINES[engine]["configs"]["thorough"] = list(ENGINES[engine]["configs"]["quick"]) + extra
+
+
+_t("orswot", [orcfg("orswot_t3.cfg", timeout=3000), orcfg("orswot_t2.cfg", timeout=3000)])
+_t("mvreg", [{"cfg": "mvreg_t3.cfg", "module": "MC_MVReg.tla", "flags": ["--persist", "--laws"], "invariants": INV_MVREG, "timeout": 3000},
+             {"cfg": "mvreg_t2.cfg", "module": "MC_MVReg.tla", "flags": ["--persist", "--laws"], "invariants": INV_MVREG, "timeout": 3000}])
+_t("map_or", [mapcfg("map_or_tm.cfg", 2, 2, timeout=3000)])
+_t("map_mv", [mapcfg("map_mv_tm.cfg", 1, 2, timeout=3000)])
+_t("map_map_or", [mapcfg("map_map_or_t.cfg", 1, 2, timeout=3000)])
+_t("map_map_mv", [mapcfg("map_map_mv_t.cfg", 1, 1, timeout=3000)])
+_t("simple", [simplecfg("lww3", "lww")])
+_t("list", [{"cfg": "list_t3.cfg", "module": "MC_List.tla", "flags": ["--persist"], "invariants": INV_LIST, "timeout": 3000}])
+_t("glist", [{"cfg": "glist_t3.cfg", "module": "MC_List.tla", "flags": ["--persist", "--laws"], "invariants": INV_LIST, "timeout": 3000},
+             {"cfg": "glist_t2.cfg", "module": "MC_List.tla", "flags": ["--persist", "--laws"], "invariants": INV_LIST, "timeout": 3000}])
+_t("merkle", [{"cfg": "merkle_th.cfg", "module": "MC_Merkle.tla", "flags": ["--persist", "--laws"], "invariants": INV_MERKLE, "timeout": 3000},
+              {"cfg": "merkle_ta.cfg", "module": "MC_Merkle.tla", "flags": ["--persist", "--laws"], "invariants": INV_MERKLE, "timeout": 3000}])
